@@ -105,6 +105,8 @@ def compile_ast(ast: Dict[str, Any]) -> List[List[Dict[str, Any]]]:
                 one(s, depth)
                 p.emit("set", Q(0), 0)      # these statements address their qubit through Q0 / Q1: restore the hoisted values
                 p.emit("set", Q(1), 1)
+                if s.get("lr", 0) > 1:
+                    p.emit("set", Q(s["lr"]), s["lr"])
                 continue
             one(s, depth)
 
@@ -139,8 +141,8 @@ def compile_ast(ast: Dict[str, Any]) -> List[List[Dict[str, Any]]]:
                 p.emit("bnz", Mr(0), top)
             elif k == "lg1":                       # qubit register written by load
                 p.emit("set", R(4), s["q"])
-                p.emit("load", Q(0), 1, R(4))
-                gate(s["g"], [Q(0)], s.get("imm"))
+                p.emit("load", Q(s.get("lr", 0)), 1, R(4))       # lr: a register that no `set` in the text may ever write
+                gate(s["g"], [Q(s.get("lr", 0))], s.get("imm"))
             elif k == "lg2":
                 p.emit("set", R(4), s["a"])
                 p.emit("load", Q(0), 1, R(4))
@@ -280,6 +282,7 @@ def gen_ast(rng: random.Random, flavour: str) -> Dict[str, Any]:
             # (two-qubit gates on a register written by load are a recorded finding: directed cases only)
             x = g1()
             x["s"] = "lg1"
+            x["lr"] = (0, 3, 2)[(x["q"] + x.get("ra", 0)) % 3]
             return x
         return g1() if alive else {"s": "add", "slot": slot(), "v": 1}
 
@@ -374,6 +377,7 @@ def directed() -> List[Dict[str, Any]]:
     D.append({**c_c, "body": [{"s": "if", "on": "arr", "slot": 0, "cmp": "eq", "v": 1, "body": [{"s": "g2", "g": "cnot", "a": 1, "b": 2}, {"s": "if", "on": "arr", "slot": 1, "cmp": "eq", "v": 0, "body": [{"s": "g1", "g": "x", "q": 1}]}]}, {"s": "g1", "g": "h", "q": 2}], "ret": True})
     # qubit register written by load
     D.append({**e_c, "body": [{"s": "lg1", "g": "h", "q": 1}, {"s": "lg1", "g": "rot_x", "q": 0, "imm": [8, 4]}], "ret": True})
+    D.append({**e_c, "body": [{"s": "lg1", "g": "h", "q": 1, "lr": 3}, {"s": "lg1", "g": "rot_x", "q": 0, "imm": [8, 4], "lr": 3}, {"s": "lg1", "g": "t", "q": 1, "lr": 2}], "ret": True})
     D.append({**e_c, "body": [{"s": "lg2", "g": "cnot", "a": 0, "b": 1}], "ret": True})
     D.append({**e_c, "body": [{"s": "lg2", "g": "cnot", "a": 1, "b": 0, "both": True}], "ret": True})
     D.append({**c_c, "body": [{"s": "stale", "g": "cnot", "old": 0, "a": 1, "b": 2}], "ret": True})
@@ -620,8 +624,10 @@ def run(prop: str, tier: str) -> int:
         for rid, v in bad.items():
             if v[1].startswith("rig-error"):
                 raise C.MachineryError(f"{v[1]}: {json.dumps(cases[rid - 1]['ast'])}")
-            if v[1] == "INCONCLUSIVE":
-                raise C.MachineryError(f"normal form inconclusive for {json.dumps(cases[rid - 1]['ast'])}")
+        # a program the normal form cannot decide is never a violation; it makes the run a machinery failure (exit 2)
+        # unless the same run has definite violations to report
+        inconclusive = [rid for rid, v in bad.items() if v[1] == "INCONCLUSIVE"]
+        bad = {rid: v for rid, v in bad.items() if v[1] != "INCONCLUSIVE"}
         ndir = 2 * len(directed())
         # directed programs are their own witnesses (the recorded findings live here and nowhere else)
         for rid, v in sorted(bad.items()):
@@ -658,6 +664,10 @@ def run(prop: str, tier: str) -> int:
             V.add("transpilation-depends-on-earlier-transpilations", dict(skeleton(sample[i]["ast"]), debug=sample[i]["debug"]),
                   f"source program {json.dumps(sample[i]['ast'])}: transpiled first in the process: {a['real']['status']} {a['real']['err']}; after other subroutines: {b['real']['status']} {b['real']['err']}",
                   {"ast": sample[i]["ast"], "debug": sample[i]["debug"], "meas": sample[i]["meas"]})
+        if inconclusive:
+            if not V.has_new():
+                raise C.MachineryError(f"normal form inconclusive for {json.dumps(cases[inconclusive[0] - 1]['ast'])}")
+            V.notes.append(f"{len(inconclusive)} program(s) could not be decided by the normal form (not judged); the run reports definite violations")
         kinds: Dict[str, int] = {}
 
         def count(body):
